@@ -19,7 +19,7 @@ Local Open Scope Z_scope.
      - (refresh due)     answered 200 with a token document to a refresh request made with
                          s0's non-empty refresh token, or
      - (refresh not due) answered the validation of s0's non-empty access token with 200
-                         (and, for Okta, active:true);
+                         (whose body decodes as JSON for Okta and Cognito, with active:true for Okta);
    the code seals s0 itself (refresh not due) or s0 with only access token and refresh deadline
    replaced: same e-mail, same refresh token, same lifetime; and exactly that session is re-saved. *)
 Theorem C09_code_sound : forall (lower : str -> str) cfg p now rq c rr vr s,
@@ -35,7 +35,7 @@ Theorem C09_code_sound : forall (lower : str -> str) cfg p now rq c rr vr s,
         s = mkS (s_email s0) tok (s_rtok s0) (now + dur) (s_lifetime s0) /\
         r_calls (sign_in_route lower cfg p now rq c rr vr) = [CallRefresh (s_rtok s0)]) \/
      (now <= s_refresh s0 /\ s = s0 /\ s_access s0 <> [] /\
-      (exists j a, vr = VStatus 200 j a /\ (p = Okta -> j = true /\ a = true)) /\
+      (exists j a, vr = VStatus 200 j a /\ (p <> Google -> j = true) /\ (p = Okta -> a = true)) /\
       r_calls (sign_in_route lower cfg p now rq c rr vr) = [CallValidate (s_access s0)])).
 Proof. exact code_sound. Qed.
 Print Assumptions C09_code_sound.
@@ -165,6 +165,41 @@ Proof.
   destruct (starts_from_events lower _ _ _ _ Hin) as [[]|Hs]. exact Hs.
 Qed.
 Print Assumptions C09_browser_jar_provenance.
+
+(* Concurrency. With several /sign_in requests in flight the single-flight layer may coalesce a
+   request's provider call with another's for the SAME token. A coalesced validation yields the
+   outcome of a call of its own; a coalesced REFRESH follower continues with its session
+   untouched. Such a follower response carries a code only for the authentic presented session
+   itself, within its lifetime, allowed by the rule, with a due refresh and a non-empty refresh
+   token (that the leader's refresh for that token succeeded is the batch-level premise of the
+   monitor, see C09_concurrent_monitor_accepts_model). *)
+Theorem C09_follower_code_sound : forall (lower : str -> str) cfg now rq c r s,
+  sign_in_route_follower lower cfg now rq c = Some r -> r_code r = Some s ->
+  si_get rq = true /\ si_client_ok rq = true /\ si_redirect_ok rq = true /\ si_sig_ok rq = true /\
+  c = CkSealed KCookie s /\ now <= s_lifetime s /\ s_refresh s < now /\ s_rtok s <> [] /\
+  rule_passes lower cfg (s_email s) = true /\ r_ops r = [OpSet s] /\ r_calls r = [].
+Proof. exact follower_code_sound. Qed.
+Print Assumptions C09_follower_code_sound.
+
+(* The batch monitor (code= ==> the batch's IdP log shows a call for THAT session's token and
+   the IdP's answer for that token is positive, ...) accepts both behaviours the model allows:
+   the sequential outcome against any log containing the request's own call, and the refresh
+   follower when the answer for its token is positive and the log shows the refresh. *)
+Theorem C09_concurrent_monitor_accepts_model : forall (lower : str -> str) cfg p now rq c rr vr calls,
+  rule_guard lower cfg = true ->
+  ((forall x, In x (r_calls (sign_in_route lower cfg p now rq c rr vr)) -> mem_call x calls = true) ->
+   si_holds lower cfg p now rq c rr vr
+     (with_calls (si_obs_of (sign_in_route lower cfg p now rq c rr vr)) calls) = true) /\
+  (forall r, sign_in_route_follower lower cfg now rq c = Some r ->
+     refresh_ok_reply rr = true ->
+     (forall s0, c = CkSealed KCookie s0 -> mem_call (CallRefresh (s_rtok s0)) calls = true) ->
+     si_holds lower cfg p now rq c rr vr (with_calls (si_obs_of r) calls) = true).
+Proof.
+  intros lower cfg p now rq c rr vr calls G. split.
+  - exact (si_holds_model_calls lower cfg p now rq c rr vr calls G).
+  - intros r. exact (si_holds_follower lower cfg p now rq c rr vr r calls G).
+Qed.
+Print Assumptions C09_concurrent_monitor_accepts_model.
 
 (* The monitors applied to the implementation's observations accept the model's own behaviour
    on every input and every history (so a monitor alarm is never an artefact of the monitor). *)
